@@ -86,7 +86,7 @@ and ser_dict b d =
   Buffer.add_string b " >"
 
 let digest s =
-  if String.length s <= 4000 then s
+  if String.length s <= 4000 || Sys.getenv_opt "C19_FULL" <> None then s
   else Printf.sprintf "md5:%s:%d" (Digest.to_hex (Digest.string s)) (String.length s)
 
 let dispatch fn args = match fn, args with
